@@ -70,22 +70,13 @@ pub fn extract_field_content(input: &str, tag: &str) -> Option<(String, usize)> 
 
 /// Find the boundary of the next field
 fn find_next_field_boundary(input: &str) -> Option<usize> {
-    let mut chars = input.char_indices();
-
-    while let Some((i, ch)) = chars.next() {
-        if ch == '\n' {
-            // Check if next character starts a field
-            if let Some((_, ':')) = chars.next() {
-                // This might be a field marker, verify the pattern
-                let rest = &input[i + 1..];
-                if is_field_marker(rest) {
-                    return Some(i);
-                }
-            }
-        }
-    }
-
-    None
+    // Every line break is a candidate: looking at (and consuming) the character after it
+    // skipped the second line break of an empty line, so a field that follows an empty
+    // line was taken for content of the previous field.
+    input
+        .char_indices()
+        .find(|&(i, ch)| ch == '\n' && is_field_marker(&input[i + 1..]))
+        .map(|(i, _)| i)
 }
 
 /// Check if the text starts with a valid field marker pattern
